@@ -163,7 +163,7 @@ namespace sim
          }
       }
       else if( prog == 6 ) {
-         static const char* ts[] = { "+ab", "+ab+cd", "+ab+", "+", "(ab)", "[cd]", "{ef}", "{ef.g}", "<gh>", "!ij", "!kl?", " ", "(a", "[x", "{y", "<z", "()", "[]", "(ab]", "!", "{q.}" };
+         static const char* ts[] = { "%ab", "%ab%cd", "%ab%", "%ab~cd", "%ab~c.", "%ab%cd~ef", "%", "+ab", "+ab+cd", "+ab+", "+", "(ab)", "[cd]", "{ef}", "{ef.g}", "<gh>", "!ij", "!kl?", " ", "(a", "[x", "{y", "<z", "()", "[]", "(ab]", "!", "{q.}" };
          for( unsigned i = r.range( 1, 6 ); i > 0; --i ) {
             s += ts[ r.below( sizeof( ts ) / sizeof( ts[ 0 ] ) ) ];
          }
